@@ -701,13 +701,13 @@ std::string jscode(const Basic &x)
     return p.apply(x);
 }
 
-std::string inline c89code(const Basic &x)
+std::string c89code(const Basic &x)
 {
     C89CodePrinter p;
     return p.apply(x);
 }
 
-std::string inline c99code(const Basic &x)
+std::string c99code(const Basic &x)
 {
     C99CodePrinter p;
     return p.apply(x);
